@@ -46,7 +46,7 @@ def literal_args(model_cls, fname: str) -> Optional[Set[str]]:
 
 
 def walk(obj: Any, raw: Any, path: Tuple, types: Dict[Tuple, Any], out: List[Tuple[str, str]], stats: Dict[str, int], schema,
-         scalar_expect=None) -> None:
+         scalar_expect=None, pyname=None) -> None:
     """Parallel walk of response JSON `raw` and returned object `obj`.  Appends (clause, detail) to out."""
     from pydantic import BaseModel
 
@@ -63,7 +63,7 @@ def walk(obj: Any, raw: Any, path: Tuple, types: Dict[Tuple, Any], out: List[Tup
             return
         stats["lists"] = stats.get("lists", 0) + 1
         for i, (o, r) in enumerate(zip(obj, raw)):
-            walk(o, r, path + (i,), types, out, stats, schema, scalar_expect)
+            walk(o, r, path + (i,), types, out, stats, schema, scalar_expect, pyname)
         return
     if isinstance(raw, dict):
         if not isinstance(obj, BaseModel):
@@ -96,7 +96,13 @@ def walk(obj: Any, raw: Any, path: Tuple, types: Dict[Tuple, Any], out: List[Tup
             if len(names) != 1:
                 out.append(("key-exposed", "%r: response key %r is carried by %d fields of %s (fields: %r)" % (path, k, len(names), type(obj).__name__, sorted(type(obj).model_fields))))
                 continue
-            walk(getattr(obj, names[0]), v, path + (k,), types, out, stats, schema, scalar_expect)
+            if pyname is not None:
+                want = pyname(k)
+                stats["python_names_checked"] = stats.get("python_names_checked", 0) + 1
+                if want is not None and names[0] != want:
+                    out.append(("python-name", "%r: response key %r is exposed as attribute %r of %s; its Python name under this configuration is %r" % (
+                        path, k, names[0], type(obj).__name__, want)))
+            walk(getattr(obj, names[0]), v, path + (k,), types, out, stats, schema, scalar_expect, pyname)
         return
     # leaf
     t = type_at(types, path)
